@@ -167,6 +167,40 @@ def make_init_labels(spec):
     return f
 
 
+def make_label_script(spec, T, K):
+    """Scripted labellings per round.  spec: dict(pattern=[...symbols...], kind=...).
+
+    Each symbol names a labelling of the T points; all symbols give every cluster at least two contiguous runs of points so that
+    no repopulation is triggered unless asked for.  'flip1' style symbols differ from the base labelling in exactly c points."""
+    base = [min(K - 1, (i * K) // T) for i in range(T)]                     # K equal blocks
+    out = []
+    for sym in spec["pattern"]:
+        if sym == "A":
+            lab = list(base)
+        elif sym == "B":
+            lab = [(l + 1) % K for l in base]
+        elif sym == "C":
+            lab = [(K - 1 - l) for l in base] if K > 2 else [l if i % 7 else 1 - l for i, l in enumerate(base)]
+            if lab == base or lab == [(l + 1) % K for l in base]:
+                lab = [l if i % 5 else (l + 1) % K for i, l in enumerate(base)]
+        elif isinstance(sym, str) and sym.startswith("A+"):
+            # the base labelling with c single points moved to the next cluster (c = int after '+'), interior points only
+            c = int(sym[2:])
+            lab = list(base)
+            step = max(1, T // (c + 1))
+            for j in range(c):
+                i = min(T - 2, 1 + (j + 1) * step - step // 2)
+                lab[i] = (lab[i] + 1) % K
+        elif sym == "E":
+            # empties the last cluster but for one point: forces a repopulation in the next round
+            lab = [l if l < K - 1 else K - 2 for l in base]
+            lab[-1] = K - 1
+        else:
+            raise ValueError(sym)
+        out.append([int(v) for v in lab])
+    return out
+
+
 # --------------------------------------------------------------------------- covariances
 
 def make_covariance(d):
